@@ -503,7 +503,7 @@ fn rebuild(t: &Transaction) -> Transaction {
 }
 fn res_tx(r: Result<Transaction, bsv::BSVErrors>) -> String {
     match r {
-        Ok(t) => format!("OK:{}", show_tx(&t)),
+        Ok(t) => format!("OK:v;{}", show_tx(&t)),
         Err(_) => "ERR".into(),
     }
 }
@@ -548,23 +548,26 @@ pub fn run(op: &str, args: &[String]) -> Option<String> {
         "txout.json" => {
             let tx = get_tx!(args, 0);
             let k = some_or_bad!(arg_u64(args, 2)) as usize;
-            let o = some_or_bad!(tx.get_output(k));
+            let o = match tx.get_output(k) {
+                Some(o) => o,
+                None => return Some("NONE".into()),
+            };
             match (o.to_json_string(), o.to_json()) {
-                (Ok(s), Ok(v)) => format!("OK:{};{}", show_bytes(s.as_bytes()), show_bytes(v.to_string().as_bytes())),
+                (Ok(s), Ok(v)) => format!("OK:v;{};{}", show_bytes(s.as_bytes()), show_bytes(v.to_string().as_bytes())),
                 _ => "ERR".into(),
             }
         }
         "tx.to_json" => {
             let tx = get_tx!(args, 0);
             match (tx.to_json_string(), tx.to_json()) {
-                (Ok(s), Ok(v)) => format!("OK:{};{}", show_bytes(s.as_bytes()), show_bytes(v.to_string().as_bytes())),
+                (Ok(s), Ok(v)) => format!("OK:v;{};{}", show_bytes(s.as_bytes()), show_bytes(v.to_string().as_bytes())),
                 _ => "ERR".into(),
             }
         }
         "tx.to_cbor" => {
             let tx = get_tx!(args, 0);
             match tx.to_compact_bytes() {
-                Ok(s) => format!("OK:{}", show_bytes(&s)),
+                Ok(s) => format!("OK:v;{}", show_bytes(&s)),
                 Err(_) => "ERR".into(),
             }
         }
@@ -573,7 +576,7 @@ pub fn run(op: &str, args: &[String]) -> Option<String> {
             let k = some_or_bad!(arg_u64(args, 2)) as usize;
             let i = some_or_bad!(tx.get_input(k));
             match (i.to_json_string(), i.to_json()) {
-                (Ok(s), Ok(v)) => format!("OK:{};{}", show_bytes(s.as_bytes()), show_bytes(v.to_string().as_bytes())),
+                (Ok(s), Ok(v)) => format!("OK:v;{};{}", show_bytes(s.as_bytes()), show_bytes(v.to_string().as_bytes())),
                 _ => "ERR".into(),
             }
         }
@@ -582,7 +585,7 @@ pub fn run(op: &str, args: &[String]) -> Option<String> {
             let k = some_or_bad!(arg_u64(args, 2)) as usize;
             let i = some_or_bad!(tx.get_input(k));
             match i.to_compact_bytes() {
-                Ok(s) => format!("OK:{}", show_bytes(&s)),
+                Ok(s) => format!("OK:v;{}", show_bytes(&s)),
                 Err(_) => "ERR".into(),
             }
         }
@@ -603,7 +606,7 @@ pub fn run(op: &str, args: &[String]) -> Option<String> {
             let mut s = Vec::new();
             tree_cbor(&t, &mut s);
             match TxIn::from_compact_bytes(&s) {
-                Ok(i) => format!("OK:{}", show_txin(&i)),
+                Ok(i) => format!("OK:v;{}", show_txin(&i)),
                 Err(_) => "ERR".into(),
             }
         }
